@@ -556,6 +556,7 @@ func (it *Interp) runPath(fn *ssa.Function) (end *pathEnd) {
 	it.nextObj = it.initObjs
 	if it.opt.TraceThreads {
 		it.tracer = newTracer()
+		it.tracer.it = it
 	}
 	defer func() {
 		it.rollback()
@@ -592,6 +593,9 @@ func (it *Interp) runPath(fn *ssa.Function) (end *pathEnd) {
 		}
 	}()
 	it.callFunction(fn, nil)
+	if it.tracer != nil {
+		it.runPending() // goroutines still waiting to run
+	}
 	it.res.CompletedPaths++
 	it.samplePath("ok")
 	return nil
